@@ -35,6 +35,7 @@ import (
 	"github.com/libp2p/go-libp2p/core/network"
 	"github.com/libp2p/go-libp2p/core/peer"
 	"github.com/libp2p/go-libp2p/core/protocol"
+	"github.com/libp2p/go-libp2p/core/record"
 )
 
 type vfPeerCfg struct {
@@ -424,6 +425,9 @@ func (g *vfGW) apply(evFull string) {
 			bo, _ = strconv.ParseUint(arg(3), 10, 64)
 		}
 		g.fake(arg(1)).send(vfPruneRPC(arg(2), bo))
+	case "prunepx":
+		// PRUNE with peer exchange: y valid record, z record of another peer, w garbage, v no record, u record sealed for a wrong domain
+		g.fake(arg(1)).send(vfPruneRPC(arg(2), 0, vfPXEntries()...))
 	case "pub":
 		g.fake(arg(1)).send(vfPubRPC(g.pbMsg(arg(2))))
 	case "ihave":
@@ -780,6 +784,46 @@ func vfGetPrune(r *RPC, topic string) *pb.ControlPrune {
 		}
 	}
 	return nil
+}
+
+type vfBogusRecord struct{ b []byte }
+
+func (r *vfBogusRecord) Domain() string                { return "vf-bogus-domain" }
+func (r *vfBogusRecord) Codec() []byte                 { return []byte{0x03, 0x99} }
+func (r *vfBogusRecord) MarshalRecord() ([]byte, error) { return r.b, nil }
+func (r *vfBogusRecord) UnmarshalRecord(b []byte) error { r.b = b; return nil }
+
+var vfPXCache []*pb.PeerInfo
+
+func vfPXEntries() []*pb.PeerInfo {
+	if vfPXCache != nil {
+		return vfPXCache
+	}
+	seal := func(signer, about string) []byte {
+		rec := &peer.PeerRecord{PeerID: vfIdentity(about).id, Seq: 1}
+		env, err := record.Seal(rec, vfIdentity(signer).priv)
+		if err != nil {
+			panic(err)
+		}
+		b, err := env.Marshal()
+		if err != nil {
+			panic(err)
+		}
+		return b
+	}
+	bogusEnv, err := record.Seal(&vfBogusRecord{b: []byte("hello")}, vfIdentity("u").priv)
+	if err != nil {
+		panic(err)
+	}
+	bogus, _ := bogusEnv.Marshal()
+	vfPXCache = []*pb.PeerInfo{
+		{PeerID: []byte(vfIdentity("y").id), SignedPeerRecord: seal("y", "y")},
+		{PeerID: []byte(vfIdentity("z").id), SignedPeerRecord: seal("y", "y")},
+		{PeerID: []byte(vfIdentity("w").id), SignedPeerRecord: []byte("garbage-not-an-envelope")},
+		{PeerID: []byte(vfIdentity("v").id)},
+		{PeerID: []byte(vfIdentity("u").id), SignedPeerRecord: bogus},
+	}
+	return vfPXCache
 }
 
 var _ = network.DirInbound
